@@ -215,4 +215,235 @@ theorem resume_equals_uninterrupted (prev fresh : Sys ℝ) (i : StepIn ℝ) (res
   obtain ⟨h4, h5, -⟩ := runs_together _ _ rest h3 hrest
   exact ⟨h4.symm, h5.symm⟩
 
+
+/-! ## metadynamics: what is written, what is loaded, how the run continues
+
+  `metaFlush` is the side effect of writing a state on the running bias (pending hills are projected onto the grids,
+  explicit hills dropped unless kept), `metaLoaded` is what a fresh instance holds after reading that state. -/
+
+/-- two metadynamics states that the bias cannot tell apart: same grid definition, tabulated energy and gradients,
+    hills near the boundaries and hills not yet tabulated; the same explicit hills whenever these are used (no grids) or
+    kept (keepHills) -/
+structure MetaSame (p : MetaParams ℝ) (a b : MetaState ℝ) : Prop where
+  g : a.g = b.g
+  gridE : a.gridE = b.gridE
+  gridG : a.gridG = b.gridG
+  offGrid : a.offGrid = b.offGrid
+  nNew : a.nNew = b.nNew
+  newH : newHills a = newHills b
+  le : a.nNew ≤ a.hills.length ∧ b.nNew ≤ b.hills.length
+  hills : (p.useGrids = false ∨ p.keepHills = true) → a.hills = b.hills
+
+/-- tabulated data have the size of the grid -/
+def GridWF (s : MetaState ℝ) : Prop :=
+  s.gridE.length = (allIndices s.g.nx).length ∧ s.gridG.length = (allIndices s.g.nx).length * s.g.nx.length
+
+/-- the instance that loaded the state cannot be told apart from the running instance that wrote it -/
+theorem meta_loaded_same_as_writer (p : MetaParams ℝ) (s : MetaState ℝ)
+    (hng : p.useGrids = false → s.nNew = s.hills.length) (hle : s.nNew ≤ s.hills.length) :
+    MetaSame p (metaLoaded p s) (metaFlush p s) := by
+  cases hu : p.useGrids
+  · have hn := hng hu
+    refine ⟨?_, ?_, ?_, ?_, ?_, ?_, ⟨?_, ?_⟩, ?_⟩
+    pick_goal 8
+    · simpa [metaFlush, hu] using hle
+    all_goals simp [metaLoaded, metaFlush, hu, newHills, hn]
+  · constructor <;> simp [metaLoaded, metaFlush, hu, newHills]
+    intro hk; simp [hk]
+
+/-- indistinguishable states give the same energy and the same forces at every position -/
+theorem meta_same_energy (p : MetaParams ℝ) (a b : MetaState ℝ) (h : MetaSame p a b) (xs : List ℝ) :
+    metaEnergy p a xs = metaEnergy p b xs ∧ ∀ i, metaForce p a xs i = metaForce p b xs i := by
+  refine ⟨?_, fun i => ?_⟩
+  · simp only [metaEnergy, h.g, h.gridE, h.offGrid, h.newH]
+  · simp only [metaForce, h.g, h.gridG, h.offGrid, h.newH]
+
+private theorem expandGrids_off (p : MetaParams ℝ) (s : MetaState ℝ) (xs : List ℝ)
+    (hexp : p.expand.any id = false) : expandGrids p s xs = s := by
+  simp [expandGrids, hexp]
+
+private theorem wtEnergyHere_same (p : MetaParams ℝ) (a b : MetaState ℝ) (h : MetaSame p a b) (xs : List ℝ) :
+    wtEnergyHere p a xs = wtEnergyHere p b xs := by
+  simp only [wtEnergyHere, h.g, h.gridE, h.offGrid, h.newH]
+
+private theorem drop_append_one {β : Type} (l : List β) (x : β) (n : Nat) (hn : n ≤ l.length) :
+    (l ++ [x]).drop ((l ++ [x]).length - (n + 1)) = l.drop (l.length - n) ++ [x] := by
+  rw [List.length_append, List.length_singleton, Nat.add_sub_add_right,
+    List.drop_append_of_le_length (by omega)]
+
+/-- depositing the same hill on both -/
+private def addHill (s : MetaState ℝ) (h : Hill ℝ) (far : Bool) : MetaState ℝ :=
+  { s with hills := s.hills ++ [h], nNew := s.nNew + 1, offGrid := if far then s.offGrid ++ [h] else s.offGrid }
+
+private theorem addHill_same (p : MetaParams ℝ) (a b : MetaState ℝ) (h : MetaSame p a b) (hl : Hill ℝ) (far : Bool) :
+    MetaSame p (addHill a hl far) (addHill b hl far) where
+  g := h.g
+  gridE := h.gridE
+  gridG := h.gridG
+  offGrid := by simp only [addHill, h.offGrid]
+  nNew := by simp only [addHill, h.nNew]
+  newH := by
+    have := h.newH
+    simp only [newHills, addHill] at this ⊢
+    rw [drop_append_one _ _ _ h.le.1, drop_append_one _ _ _ h.le.2, this]
+  le := by simp only [addHill, List.length_append, List.length_singleton]; exact ⟨by have := h.le.1; omega, by have := h.le.2; omega⟩
+  hills := fun hk => by simp only [addHill, h.hills hk]
+
+private theorem projectHills_same (p : MetaParams ℝ) (a b : MetaState ℝ) (h : MetaSame p a b) :
+    (projectHills p a (newHills a)).g = (projectHills p b (newHills b)).g ∧
+    (projectHills p a (newHills a)).gridE = (projectHills p b (newHills b)).gridE ∧
+    (projectHills p a (newHills a)).gridG = (projectHills p b (newHills b)).gridG ∧
+    (projectHills p a (newHills a)).offGrid = (projectHills p b (newHills b)).offGrid ∧
+    (projectHills p a (newHills a)).hills = a.hills ∧ (projectHills p b (newHills b)).hills = b.hills := by
+  simp only [projectHills, h.g, h.gridE, h.gridG, h.offGrid, h.newH, and_self]
+
+/-- the grid update of `metaStep` -/
+private noncomputable def tabulate (p : MetaParams ℝ) (s : MetaState ℝ) : MetaState ℝ :=
+  { projectHills p s (newHills s) with nNew := 0, hills := if p.keepHills then (projectHills p s (newHills s)).hills else [] }
+
+private theorem tabulate_same (p : MetaParams ℝ) (a b : MetaState ℝ) (h : MetaSame p a b) :
+    MetaSame p (tabulate p a) (tabulate p b) := by
+  obtain ⟨h1, h2, h3, h4, h5, h6⟩ := projectHills_same p a b h
+  exact {
+    g := h1
+    gridE := h2
+    gridG := h3
+    offGrid := h4
+    nNew := rfl
+    newH := by simp [newHills, tabulate]
+    le := ⟨Nat.zero_le _, Nat.zero_le _⟩
+    hills := fun hk => by
+      show (if p.keepHills then _ else _) = (if p.keepHills then _ else _)
+      rw [h5, h6]
+      cases hkk : p.keepHills
+      · rfl
+      · simp only [if_true]; exact h.hills (Or.inr hkk) }
+
+/-- and one update keeps them indistinguishable (grids that do not expand): same energy and forces now, and at every
+    later step by induction -/
+theorem meta_step_together (p : MetaParams ℝ) (c : Clock) (a b : MetaState ℝ) (xs : List ℝ)
+    (h : MetaSame p a b) (hexp : p.expand.any id = false) :
+    (metaStep p c a xs).2 = (metaStep p c b xs).2 ∧ MetaSame p (metaStep p c a xs).1 (metaStep p c b xs).1 := by
+  -- the state after deposition
+  have key : ∀ s : MetaState ℝ, metaStep p c s xs =
+      (let s2 := if depositNow p c then
+          addHill s { it := c.it, w := p.hillWeight * (if p.wellTempered then 1.0 * Prim.exp (-1.0 * wtEnergyHere p s xs / p.biasTempKB) else 1.0), centers := xs, sigmas := p.sigmas }
+            (p.useGrids && decide (binDistance p s.g xs < ((3 * Prim.floorI p.hillWidth : Int) : ℝ) + 1.0))
+        else s
+       let s3 := if p.useGrids && decide (p.gridsFreq > 0) && decide (Int.tmod c.it p.gridsFreq = 0) then tabulate p s2 else s2
+       (s3, metaEnergy p s3 xs, (List.range xs.length).map (metaForce p s3 xs))) := by
+    intro s
+    simp only [metaStep, expandGrids_off p s xs hexp, addHill, tabulate]
+  rw [key a, key b]
+  simp only [wtEnergyHere_same p a b h xs, h.g]
+  generalize ({ it := c.it, w := _, centers := xs, sigmas := p.sigmas } : Hill ℝ) = hl
+  generalize (p.useGrids && decide (binDistance p b.g xs < _)) = far
+  have h2 : MetaSame p (if depositNow p c then addHill a hl far else a) (if depositNow p c then addHill b hl far else b) := by
+    cases depositNow p c
+    · exact h
+    · exact addHill_same p a b h hl far
+  revert h2
+  generalize (if depositNow p c then addHill a hl far else a) = a2
+  generalize (if depositNow p c then addHill b hl far else b) = b2
+  intro h2
+  have h3 : MetaSame p (if p.useGrids && decide (p.gridsFreq > 0) && decide (Int.tmod c.it p.gridsFreq = 0) then tabulate p a2 else a2)
+      (if p.useGrids && decide (p.gridsFreq > 0) && decide (Int.tmod c.it p.gridsFreq = 0) then tabulate p b2 else b2) := by
+    cases (p.useGrids && decide (p.gridsFreq > 0) && decide (Int.tmod c.it p.gridsFreq = 0))
+    · exact h2
+    · exact tabulate_same p a2 b2 h2
+  revert h3
+  generalize (if p.useGrids && decide (p.gridsFreq > 0) && decide (Int.tmod c.it p.gridsFreq = 0) then tabulate p a2 else a2) = a3
+  generalize (if p.useGrids && decide (p.gridsFreq > 0) && decide (Int.tmod c.it p.gridsFreq = 0) then tabulate p b2 else b2) = b3
+  intro h3
+  obtain ⟨e1, e2⟩ := meta_same_energy p a3 b3 h3 xs
+  refine ⟨?_, h3⟩
+  show (metaEnergy p a3 xs, _) = (metaEnergy p b3 xs, _)
+  rw [e1]
+  congr 1
+  exact List.map_congr_left (fun i _ => e2 i)
+
+
+private theorem meta_run_together (p : MetaParams ℝ) (hexp : p.expand.any id = false) (hist : List (Clock × List ℝ)) :
+    ∀ (a b : MetaState ℝ) (out : List (ℝ × List ℝ)), MetaSame p a b →
+    (hist.foldl (fun (acc : MetaState ℝ × List (ℝ × List ℝ)) cx =>
+        let r := metaStep p cx.1 acc.1 cx.2; (r.1, acc.2 ++ [r.2])) (a, out)).2 =
+    (hist.foldl (fun (acc : MetaState ℝ × List (ℝ × List ℝ)) cx =>
+        let r := metaStep p cx.1 acc.1 cx.2; (r.1, acc.2 ++ [r.2])) (b, out)).2 := by
+  induction hist with
+  | nil => intro a b out _; rfl
+  | cons cx rest ih =>
+    intro a b out h
+    obtain ⟨h1, h2⟩ := meta_step_together p cx.1 a b cx.2 h hexp
+    simp only [List.foldl_cons, h1]
+    exact ih _ _ _ h2
+
+/-- **resume ≡ the run that wrote the state**: from the loaded state and from the flushed running state, any further
+    history of updates gives the same energies and forces -/
+theorem meta_resume (p : MetaParams ℝ) (s : MetaState ℝ) (hist : List (Clock × List ℝ))
+    (hng : p.useGrids = false → s.nNew = s.hills.length) (hle : s.nNew ≤ s.hills.length)
+    (hexp : p.expand.any id = false) :
+    let run := fun (s0 : MetaState ℝ) => (hist.foldl (fun (acc : MetaState ℝ × List (ℝ × List ℝ)) cx =>
+        let r := metaStep p cx.1 acc.1 cx.2; (r.1, acc.2 ++ [r.2])) (s0, [])).2
+    run (metaLoaded p s) = run (metaFlush p s) := by
+  intro run
+  exact meta_run_together p hexp hist _ _ [] (meta_loaded_same_as_writer p s hng hle)
+
+private theorem zipWith_neutral {β γ : Type} (f : β → γ → β) (l : List β) (m : List γ)
+    (hf : ∀ x, ∀ y ∈ m, f x y = x) (hlen : l.length ≤ m.length) : List.zipWith f l m = l := by
+  induction l generalizing m with
+  | nil => simp
+  | cons x xs ih =>
+    cases m with
+    | nil => simp at hlen
+    | cons y ys =>
+      simp only [List.zipWith_cons_cons]
+      rw [hf x y (by simp), ih ys (fun x y hy => hf x y (by simp [hy])) (by simpa using hlen)]
+
+private theorem projectHills_nil (p : MetaParams ℝ) (s : MetaState ℝ) (hwf : GridWF s) :
+    projectHills p s [] = s := by
+  obtain ⟨h1, h2⟩ := hwf
+  have e1 : List.zipWith (· + ·) s.gridE ((allIndices s.g.nx).map fun ix => hillsEnergy p [] (binCenters s.g ix)) = s.gridE := by
+    apply zipWith_neutral
+    · intro x y hy
+      obtain ⟨ix, -, rfl⟩ := List.mem_map.1 hy
+      show x + (0.0 : ℝ) = x
+      norm_num
+    · simp [h1]
+  have e2 : List.zipWith (fun g f => g - f) s.gridG ((allIndices s.g.nx).flatMap fun ix =>
+      (List.range s.g.nx.length).map fun i => hillsForce p [] (binCenters s.g ix) i) = s.gridG := by
+    apply zipWith_neutral
+    · intro x y hy
+      obtain ⟨ix, -, hy⟩ := List.mem_flatMap.1 hy
+      obtain ⟨i, -, rfl⟩ := List.mem_map.1 hy
+      show x - (0.0 : ℝ) = x
+      norm_num
+    · simp [h2, List.length_flatMap]
+  simp only [projectHills, e1, e2]
+
+/-- writing a state twice in a row changes nothing the second time -/
+theorem meta_flush_idempotent (p : MetaParams ℝ) (s : MetaState ℝ) (hwf : GridWF (metaFlush p s)) :
+    metaFlush p (metaFlush p s) = metaFlush p s := by
+  cases hu : p.useGrids
+  · simp [metaFlush, hu]
+  · have hn : newHills (metaFlush p s) = [] := by simp [newHills, metaFlush, hu]
+    have := projectHills_nil p _ hwf
+    conv_lhs => rw [metaFlush]
+    simp only [hu, if_true, hn, this]
+    cases hk : p.keepHills <;> simp [metaFlush, hu, hk]
+
+/-- saving immediately after loading reproduces the state that was loaded -/
+theorem meta_save_after_load (p : MetaParams ℝ) (s : MetaState ℝ) (hwf : GridWF (metaFlush p s)) :
+    metaLoaded p (metaLoaded p s) = metaLoaded p s := by
+  cases hu : p.useGrids
+  · simp [metaLoaded, metaFlush, hu]
+  · have hn : newHills (metaLoaded p s) = [] := by simp [newHills, metaLoaded, hu]
+    have hwf' : GridWF (metaLoaded p s) := hwf
+    have := projectHills_nil p _ hwf'
+    have hf : metaFlush p (metaLoaded p s) = { metaLoaded p s with nNew := 0, hills := if p.keepHills then (metaLoaded p s).hills else [] } := by
+      conv_lhs => rw [metaFlush]
+      simp only [hu, if_true, hn, this]
+    conv_lhs => rw [metaLoaded]
+    simp only [hf]
+    cases hk : p.keepHills <;> simp [metaLoaded, hu, hk]
+
 end Cv.C03
